@@ -20,6 +20,17 @@ def dyadic(rng, nonzero=False, kmax=24, amax=3):
         return k / (2 ** a)
 
 
+def wide_dyadic(rng, nonzero=False):
+    """numbers whose exact decimal expansion needs many digits but at most 15 significant ones (so the shortest
+    round-trip rendering of Rust's `{}` IS the exact expansion): k/1024, integers beyond f32's 2^24"""
+    if rng.random() < 0.6:
+        k = rng.randint(-2 ** 20, 2 ** 20)
+        if nonzero and k == 0:
+            k = 1
+        return k / 1024.0
+    return float(rng.choice([1, -1]) * rng.choice([16777217, 2 ** 31 + 1, 2 ** 40 + 1, 10 ** 14 + 1, 123456789]))
+
+
 def num(x):
     return C.f64(x)
 
@@ -260,6 +271,52 @@ def gen_fault(rng, lines, cls):
     return [pick[0], pick[1]]
 
 
+def _respell(rng, tok):
+    """another spelling of the same decimal number accepted by <f64 as FromStr>"""
+    neg = tok.startswith("-")
+    body = tok.lstrip("+-")
+    if not body or not all(ch.isdigit() or ch == "." for ch in body) or body.count(".") > 1:
+        return None
+    ip, _, fp = body.partition(".")
+    digits = (ip + fp).lstrip("0") or "0"
+    sign = "-" if neg else rng.choice(["", "+"])
+    style = rng.randrange(7)
+    if style == 0:
+        return sign + ip + "." + fp + "0" * rng.randint(1, 3)
+    if style == 1:
+        return sign + "00" + ip + ("." + fp if fp else "")
+    if style == 2:                      # mantissa as an integer with a negative exponent
+        return sign + digits + rng.choice(["e", "E"]) + "-" + str(len(fp))
+    if style == 3:
+        return sign + ip + "." + fp + rng.choice(["e0", "E+0", "e-00", "E+00"])
+    if style == 4 and not fp:
+        return sign + ip + "."
+    if style == 5 and ip.strip("0") == "" and fp:
+        return sign + "." + fp
+    if style == 6:                      # shifted by two places
+        ex = len(digits) + 2 - len(fp)
+        return sign + "0.00" + digits + "e" + (rng.choice(["", "+"]) + str(ex) if ex >= 0 else str(ex))
+    return sign + body if sign == "+" else None
+
+
+def gen_restyle(rng, lines):
+    """replace one numeric token of a data line by an equivalent spelling"""
+    sec = _sections(lines)
+    s = rng.choice(["COLUMNS", "RHS", "RANGES", "BOUNDS"])
+    c = [i for i, (k, w) in sec.items() if k == "field" and w == s and "'MARKER'" not in lines[i]]
+    if s == "BOUNDS":
+        c = [i for i in c if len(lines[i].split()) == 4]
+    if not c:
+        return None
+    i = rng.choice(c)
+    ntok = len(lines[i].split())
+    pos = 3 if s == "BOUNDS" else (rng.choice([2, 4]) if ntok == 5 else 2)
+    new = _respell(rng, lines[i].split()[pos])
+    if new is None:
+        return None
+    return [i, _retok(lines[i], pos, new), "restyle"]
+
+
 def apply_fault(lines, fault):
     out = list(lines)
     out[fault[0]] = fault[1]
@@ -297,6 +354,9 @@ def gen_bound_shape(rng, kind):
         return (-INF, INF)
     a = dyadic(rng)
     b = a + abs(dyadic(rng))
+    if rng.random() < 0.1:
+        a = wide_dyadic(rng)
+        b = a + rng.choice([0.0, 1.0, 0.5, 1024.0])
     if kind == 2 and rng.random() < 0.7:
         a, b = float(int(a)), float(int(a) + rng.randint(0, 9))
     if s == "finite":
@@ -316,11 +376,11 @@ def gen_bound_shape(rng, kind):
 def gen_linear_fn(rng, ids, allow_const_only=True, dup=False):
     k = rng.randint(0 if allow_const_only else 1, min(len(ids), 4))
     use = rng.sample(ids, k)
-    terms = [(i, dyadic(rng, nonzero=True)) for i in use]
+    terms = [(i, dyadic(rng, nonzero=True) if (dup or rng.random() < 0.85) else wide_dyadic(rng, nonzero=True)) for i in use]
     if dup and terms:
         i, c = terms[0]
         terms.append((i, dyadic(rng, nonzero=True)))
-    const = 0.0 if rng.random() < 0.35 else dyadic(rng)
+    const = 0.0 if rng.random() < 0.35 else (dyadic(rng) if (dup or rng.random() < 0.85) else wide_dyadic(rng))
     return terms, const
 
 
